@@ -160,6 +160,7 @@ def run(ctx):
     h = ctx.compile_harness("c16_rows.cc")
     wd = ctx.workdir()
     R = Runner(ctx, h, drv, wd)
+    t_run = time.time()        # the time budget below is for the histories, not for waiting on the shared build locks
     for b in broken:
         ctx.violation("proof obligation of C16 does not check: " + b,
                       {"obligation": b, "theorems": "lean/PPLV/Props/C16.lean"}, found_input=False)
@@ -278,7 +279,7 @@ def run(ctx):
 
     # 3. seeded histories -----------------------------------------------------------------------------
     n_hist = 1200 if ctx.tier == "quick" else 15000
-    chunk = 600
+    chunk = 300
     totals = collections.Counter()
     ops_hist = collections.Counter()
     rs_hist = collections.Counter()
@@ -339,7 +340,7 @@ def run(ctx):
         for line in open(v, errors="replace"):
             if line.startswith("ok ") and (".near." in line or ".in." in line):
                 probes_agree += 1
-        if time.time() - t0 > (200 if ctx.tier == "quick" else 3000):
+        if time.time() - t_run > (150 if ctx.tier == "quick" else 3000):
             ctx.notes.append("stopped after %d histories (time budget)" % last)
             n_hist = last
             break
